@@ -613,6 +613,10 @@ def make_desc(draw):
         kw['mask'] = draw(st.integers(0, 3))
     if draw(st.integers(0, 9)) < 2:
         kw['boost_error'] = False
+    if isinstance(content, str) and draw(st.integers(0, 9)) < 3:
+        kw['encoding'] = draw(st.sampled_from(['utf-8', 'utf-16', 'utf-32', 'utf-8-sig', 'shift_jis', 'iso-8859-15', 'utf-16-be', 'cp1252']))
+        if fn in ('make', 'make_qr') and draw(st.booleans()):
+            kw['eci'] = True
     return {'op': 'make', 'fn': fn, 'content': enc_content(content), 'kw': kw}
 
 
@@ -751,7 +755,7 @@ def histories_phase(tier):
         STATE['stats'] = stats
         STATE['steps'] = 0
         STATE['excluded'] = set()
-        for rnd in range(4):
+        for rnd in range(2 if tier == 'quick' else 4):
             STATE['last_fail'] = None
             machine = hypothesis.seed(seed * 1000 + shard * 7 + rnd)(History)
             try:
